@@ -149,12 +149,16 @@ def reset_cache():
     implstate.reset_table_cache()
 
 
-def scan(stream):
+FILTER_NO_DEFS = '${%data_category} != 11'      # the definition messages are not wanted in the output; they still define
+
+
+def scan(stream, filter_expr=None):
     from pybufrkit.decoder import Decoder, generate_bufr_message
     out = []
     with contextlib.redirect_stderr(io.StringIO()):
         try:
-            for m in generate_bufr_message(Decoder(), stream, continue_on_error=True, wire_template_data=False):
+            for m in generate_bufr_message(Decoder(), stream, continue_on_error=True, wire_template_data=False,
+                                           filter_expr=filter_expr):
                 td = m.template_data.value
                 out.append((m.serialized_bytes, [([str(x) for x in td.decoded_descriptors_all_subsets[i]],
                                                   list(td.decoded_values_all_subsets[i]),
@@ -164,35 +168,42 @@ def scan(stream):
     return out, None
 
 
-def judge(hist, e1def):
-    """-> (outcome, None or (sig, detail))"""
+def judge(hist, e1def, filtered=False):
+    """-> (outcome, None or (sig, detail)).  filtered: the stream is scanned with a filter expression that rejects the
+    definition messages (data category 11): they must not be delivered and must still govern what follows"""
     stream, items = build_stream(hist, e1def)
     if any(exp == ('envelope',) for ev, m, exp in items):
         return ('envelope',), None
     reset_cache()
     try:
-        got, exc = scan(stream)
+        got, exc = scan(stream, FILTER_NO_DEFS if filtered else None)
     finally:
         reset_cache()
-    outcome = (len(hist), tuple(exp[0] if exp != 'def' else 'def' for ev, m, exp in items))
+    outcome = (len(hist), tuple(exp[0] if exp != 'def' else 'def' for ev, m, exp in items), filtered)
+    tag = '|filtered' if filtered else ''
     if exc is not None:
-        return outcome, ('scan-raises:' + type(exc).__name__, 'stream %r: %r' % (list(hist), exc))
+        return outcome, ('scan-raises:' + type(exc).__name__ + tag, 'stream %r%s: %r' % (list(hist), tag, exc))
     gi = 0
     for k, (ev, m, exp) in enumerate(items):
         hit = gi < len(got) and got[gi][0] == m
+        if filtered and exp == 'def':
+            if hit:
+                return outcome, ('filtered-out-delivered|%s' % ev, 'stream %r: definition message %d was delivered although the '
+                                 'filter %r rejects it' % (list(hist), k, FILTER_NO_DEFS))
+            continue
         if exp == ('unknown',):
             if hit:
                 return outcome, ('undefined-decoded|%s' % ev, 'stream %r: message %d (%s) uses descriptors nothing has defined '
                                  'yet but was decoded: %r' % (list(hist), k, ev, got[gi][1][0][0][:6]))
             continue
         if not hit:
-            return outcome, ('not-delivered|%s' % ev, 'stream %r: message %d (%s) was not delivered (yielded %d messages)'
+            return outcome, ('not-delivered|%s%s' % (ev, tag), 'stream %r: message %d (%s) was not delivered (yielded %d messages)'
                              % (list(hist), k, ev, len(got)))
         if exp != 'def':
             d = S.compare_subsets(got[gi][1], exp[1])
             if d:
                 prior = [e for e in hist[:k] if e[0] == 'd']
-                return outcome, ('%s|%s|after-%s' % (d[0], ev, '+'.join(prior) or 'nothing'),
+                return outcome, ('%s|%s|after-%s%s' % (d[0], ev, '+'.join(prior) or 'nothing', tag),
                                  'stream %r: message %d (%s): %s' % (list(hist), k, ev, d[1]))
         gi += 1
     if gi != len(got):
@@ -200,7 +211,7 @@ def judge(hist, e1def):
     return outcome, None
 
 
-def hist_body(hist):
+def hist_body(hist, filtered=False):
     def body(ctx):
         if 'dA' in hist:
             w = WIDTHS[ctx.pick('e1.width', len(WIDTHS), 'D')]
@@ -209,13 +220,14 @@ def hist_body(hist):
             un = UNITS[ctx.pick('e1.unit', len(UNITS), 'D')]
         else:
             w, sc, rf, un = WIDTHS[0], SCALES[0], REFS[0], UNITS[0]
-        outcome, v = judge(hist, (w, sc, rf, un))
+        outcome, v = judge(hist, (w, sc, rf, un), filtered)
         return {'outcome': outcome, 'viol': v, 'e1def': (w, sc, rf, un)}
     return body
 
 
 def run_hists(args):
-    hists, bound = args
+    hists, bound = args[:2]
+    filtered = len(args) > 2 and args[2]
     p = Partial()
     st = tree.Stats()
     states, trans = set(), set()
@@ -231,10 +243,10 @@ def run_hists(args):
             states.add(s1)
             trans.add((s0, hist[-1], s1))
             if res['viol']:
-                p.violation(res['viol'][0], {'history': list(hist), 'choices': ctx.vector()}, res['viol'][1])
+                p.violation(res['viol'][0], {'history': list(hist), 'choices': ctx.vector(), 'filtered': filtered}, res['viol'][1])
             elif p.n['exec'] % 500 == 1:
                 p.sample({'history': list(hist), 'e1': list(res['e1def'])})
-        tree.explore(hist_body(hist), bound, on_leaf, st)
+        tree.explore(hist_body(hist, filtered), bound, on_leaf, st)
     p.n['nodes'] += st.nodes
     p.n['edges'] += st.edges
     p.outcomes |= {('abstract-state', hash(s)) for s in states}
@@ -318,7 +330,7 @@ def replay(part, case):
     if part == 'prepbufr':
         p = run_prepbufr(None)
         return [{'sig': v['sig'], 'detail': v['detail']} for v in p.viol if v['case'].get('index') == case.get('index')]
-    ctx, res = tree.replay(hist_body(tuple(case['history'])), case['choices'])
+    ctx, res = tree.replay(hist_body(tuple(case['history']), case.get('filtered', False)), case['choices'])
     return [{'sig': res['viol'][0], 'detail': res['viol'][1]}] if res['viol'] else []
 
 
@@ -341,6 +353,11 @@ def main(tier, seed):
     rep.add_part('histories', p, bounds={'events': EVENTS, 'max_length': maxlen, 'histories': len(hists),
                                          'definition_deviations': bound,
                                          'abstract_states_default_definitions': len(allstates)})
+    p = merge_all(run_shards(run_hists, [(s, bound - 1, True) for s in shards[k:] + shards[:k]]))
+    rep.add_part('histories-filtered', p, bounds={'events': EVENTS, 'max_length': maxlen, 'histories': len(hists),
+                                                  'definition_deviations': bound - 1, 'filter_expr': FILTER_NO_DEFS},
+                 rule='the same histories scanned with a filter expression that rejects the definition messages: they are not '
+                      'delivered, the data messages are, decoded by the definitions')
     p = run_prepbufr(None)
     p.n['nodes'], p.n['edges'] = p.n['exec'] + 1, p.n['exec']
     rep.add_part('prepbufr', p, bounds={'file': 'tests/data/prepbufr.bufr'})
